@@ -39,7 +39,7 @@ type C14Case struct {
 	Prog *gen.ProgCase `json:"prog,omitempty"`
 }
 
-var c14Places = []string{"text", "literal", "string", "string-esc", "mapkey", "css", "css-base", "msgtext", "global", "global-list", "global-map", "param-content", "switch-case", "mapvalue", "listitem"}
+var c14Places = []string{"string-raw", "subscript", "subscript-raw", "text", "literal", "string", "string-esc", "mapkey", "css", "css-base", "msgtext", "global", "global-list", "global-map", "param-content", "switch-case", "mapvalue", "listitem"}
 
 var c14Pieces = []string{"'", "\"", "\\", "\n", "\r", "\t", "\u2028", "\u2029", "</script>", "<!--", "]]>", "𝄞", "\U0010FFFF", "\U000E0001", "é", "日本", "a", "b", " ", "0", "=", "&", "<", ">", "/", "`", "${x}", "\x00", "\x01", "\x1f", "\x7f", "\u0085", " ", "\ufeff", "\\n", "\\u0041", "'+alert(1)+'", "*/", "/*", "//", "{", "}", ";", ":", ",", "-->", "\v", "\f", "\b", "%", "$", "#",
 	"1a", "010", "1e1", "0x10", "00", "1", "-1", "1.5", "class", "default", "function", "constructor", "toString", "hasOwnProperty", "__proto__", "prototype", "length", "a-b", "a.b", "\u00e9", "é",
@@ -138,6 +138,17 @@ func buildC14(c C14Case) (gen.ProgCase, string) {
 			body = append(body, ref.Cmd{K: "print", Expr: str(src, 0), Directives: noesc})
 		case "string-esc":
 			body = append(body, ref.Cmd{K: "print", Expr: str(src, 1), Directives: noesc})
+		case "string-raw":
+			body = append(body, ref.Cmd{K: "print", Expr: str(src, 3), Directives: noesc})
+		case "subscript", "subscript-raw":
+			// the literal as the key of an entry and as the subscript that looks it up
+			esc := 0
+			if l.Place == "subscript-raw" {
+				esc = 3
+			}
+			body = append(body, ref.Cmd{K: "let", Var: v, Expr: &ref.Expr{Op: "map", Keys: []string{src, src + "x"}, Args: []*ref.Expr{str("hit", 0), str("miss", 0)}}},
+				ref.Cmd{K: "print", Expr: &ref.Expr{Op: "ref", Name: v, Access: []ref.Access{{Kind: "expr", Expr: str(src, esc)}}}})
+			w = "hit"
 		case "mapkey":
 			body = append(body, ref.Cmd{K: "let", Var: v, Expr: &ref.Expr{Op: "map", Keys: []string{src}, Args: []*ref.Expr{{Op: "int", I: 1}}}},
 				ref.Cmd{K: "for", Style: 1, Var: "k" + v, Expr: &ref.Expr{Op: "call", Name: "keys", Args: []*ref.Expr{varE(v)}}, Body: []ref.Cmd{{K: "print", Expr: varE("k" + v), Directives: noesc}}})
@@ -334,7 +345,7 @@ func checkC14(c C14Case) Verdict {
 	}
 	if os.Getenv("VERIF_WITNESS") == "" && findingOpen("F35") {
 		for _, l := range c.Lits {
-			if l.Place == "mapkey" && l.S == "__proto__" {
+			if (l.Place == "mapkey" || l.Place == "subscript" || l.Place == "subscript-raw") && l.S == "__proto__" {
 				return excluded("known finding F35: map literal key __proto__")
 			}
 		}
